@@ -45,6 +45,8 @@ class OptimReplayer:
                     if a == "ctor":
                         h = call["h"]
                         tag = hyper_tag(call["kind"], h)
+                        if call.get("fz"):
+                            P[1].requires_grad = False          # frozen when the optimizer is built
                         if call["kind"] == "sgd":
                             opt = sg.optim.SGD([P[0], P[1]], lr=qf(h["lr"]), momentum=qf(h["mom"]), dampening=qf(h["damp"]),
                                                weight_decay=qf(h["wd"]), nesterov=h["nesterov"], maximize=h["maximize"])
